@@ -31,7 +31,7 @@ def load_mutants():
             meta = os.path.join(sd, n, "meta.json")
             if os.path.exists(meta):
                 m = json.load(open(meta))
-                muts["seeded/" + n] = {"name": "seeded/" + n, "props": m.get("caught_by") or [m["property"]] if isinstance(m.get("property"), str) else m["property"],
+                muts["seeded/" + n] = {"name": "seeded/" + n, "props": [m["property"]],
                                         "diff": os.path.join(sd, n, "patch.diff"), "why": m.get("needs", "")}
     return muts
 
@@ -89,6 +89,17 @@ def main():
                     clean_ok = rr2.returncode == 0
                     ok = replay_ok and clean_ok
                 rows.append((n, prop, "CAUGHT" if ok else f"MISSED(rc={r.returncode})", f"{time.time()-t:.0f}s", (rule[0][:150] if rule else "")))
+                if n.startswith("seeded/"):
+                    mp = os.path.join(VERIF, n, "meta.json")
+                    meta = json.load(open(mp))
+                    cb = {c["property"]: c for c in meta.get("caught_by", []) if isinstance(c, dict)}
+                    if ok:
+                        cb[prop] = {"property": prop, "tier": a.tier, "rule": (rule[0].split(" sig=")[0].replace("rule=", "") if rule else ""),
+                                    "detail": (rule[0][:300] if rule else "")}
+                    else:
+                        cb.pop(prop, None)
+                    meta["caught_by"] = [cb[k] for k in sorted(cb)]
+                    json.dump(meta, open(mp, "w"), indent=1)
                 if not ok:
                     bad += 1
                     if r.returncode not in (0, 1):
